@@ -27,6 +27,9 @@ EXPECT = {
     "R-LIFE": [("dangling-reference", "ctl_dangling")],
     "R-LIFE.inval": [("reference-into-grown-vector", "ctl_invalidated")],
     "R-EFF.frozen": [("static-from-argument", "ctl_frozen")],
+    "R-LIFE.ret": [("returns-local", "ctl_ret_local"), ("returns-temporary-through-helper", "ctl_ret_temporary")],
+    "R-API.ret": [("value-to-reference", "ctl_api_ref")],
+    "R-GRD.fwd": [("member-skipped-on-one-path", "CtlCompound::transform")],
 }
 
 _cache = {}
@@ -56,6 +59,9 @@ def _run_all():
         r_own.lifetimes(c, [u], scope=lambda f: "vt_control" in f.qn)
         r_own.invalidation(c, [u], scope=lambda f: "vt_control" in f.qn)
         r_own.frozen_statics(c, [u], scope=lambda f: "vt_control" in f.qn)
+        r_own.returned_references(c, [u], scope=lambda f: "vt_control" in f.qn)
+        r_own.api_returns(c, [u], baseline={"vt_control::ctl_api_ref|1": "value"})
+        r_grd.forwarding(c, [u])
     finally:
         C.LIB_EXTRA[:] = saved
     _cache["v"] = c.violations
